@@ -82,6 +82,7 @@ REQUIRED = [
     "rewrite:dedupe+second", "sweep:record-chars", "sweep:gene-chars",
     "gene:accepted", "gene:renamed", "gene:rejected-dup-name", "gene:rejected-dup-location",
     "gene:record-rejected", "gene:record-accepted", "case:exhaustion",
+    "mode:gff", "gene:gff-accepted-multi", "gene:gff-rejected",
 ]
 
 RECORD_FORBIDDEN = frozenset("!\"#$%&()*+,:;=>?@[]^`'{|}/ ")
@@ -221,6 +222,21 @@ class _Recorder:
 
 
 RECORDER = _Recorder()
+
+_WORK = {"dir": None}
+
+
+def workdir() -> str:
+    if _WORK["dir"] is None:
+        _WORK["dir"] = tempfile.mkdtemp(prefix="vf-c16-")
+    return _WORK["dir"]
+
+
+def cleanup() -> None:
+    if _WORK["dir"]:
+        shutil.rmtree(_WORK["dir"], ignore_errors=True)
+        _WORK["dir"] = None
+    logging.disable(logging.NOTSET)
 
 
 def install(ctx) -> None:
@@ -449,11 +465,9 @@ def run_id_case(ctx, case) -> None:
     for cls in classes:
         ctx.count(f"class:{cls}")
     RECORDER.reset()
-    tmpdir = None
     try:
         if mode == "fasta":
-            tmpdir = tempfile.mkdtemp(prefix="vf-c16-")
-            path = os.path.join(tmpdir, "input.fasta")
+            path = os.path.join(workdir(), "input.fasta")
             with open(path, "w", encoding="utf-8") as handle:
                 for text in ids:
                     handle.write(f">{text} generated record\n{DNA}\n")
@@ -498,8 +512,6 @@ def run_id_case(ctx, case) -> None:
         oracle_records(ctx, case, ids, names, allow_long, snapshot(out), histories)
     finally:
         RECORDER.reset()
-        if tmpdir:
-            shutil.rmtree(tmpdir, ignore_errors=True)
 
 
 # --------------------------------------------------------------------------
@@ -880,6 +892,79 @@ def gene_character_sweep(ctx) -> None:
 
 
 # --------------------------------------------------------------------------
+# gene names through the GFF3 route: parse_input_sequence(fasta, gff_file=...) names CDS features from
+# gene/mRNA/CDS attributes (Name, locus_tag, ID, <name>_<i> for several CDS under one gene)
+# --------------------------------------------------------------------------
+
+def gen_gff_case(rng) -> dict:
+    genes = []
+    for g in range(rng.randrange(2, 6)):
+        start = rng.choice(GENE_STARTS)
+        length = rng.choice(GENE_LENGTHS)
+        gene = {"start": start, "end": start + length, "strand": rng.choice("++-"),
+                "name": rng.choice(GENE_NAMES + [None]), "locus_tag": rng.choice(GENE_NAMES + [None, None, None]),
+                "mrnas": rng.choice([1, 1, 1, 2]), "parentless": rng.random() < 0.15,
+                "id": rng.choice([f"g{g}", f"g{g}", "g0"])}
+        genes.append(gene)
+    return {"kind": "gff", "genes": genes}
+
+
+def _gff_text(case) -> str:
+    from urllib.parse import quote
+    lines = ["##gff-version 3"]
+
+    def row(kind, start, end, strand, attrs):
+        text = ";".join(f"{k}={quote(v, safe=' :')}" for k, v in attrs if v is not None)
+        lines.append("\t".join(["rec1", "generated", kind, str(start + 1), str(end), ".", strand,
+                                 "0" if kind == "CDS" else ".", text]))
+
+    for n, gene in enumerate(case["genes"]):
+        if gene["parentless"]:
+            row("CDS", gene["start"], gene["end"], gene["strand"],
+                [("ID", f"cds{n}"), ("Name", gene["name"]), ("locus_tag", gene["locus_tag"])])
+            continue
+        row("gene", gene["start"], gene["end"], gene["strand"],
+            [("ID", gene["id"]), ("Name", gene["name"]), ("locus_tag", gene["locus_tag"])])
+        for m in range(gene["mrnas"]):
+            row("mRNA", gene["start"], gene["end"], gene["strand"], [("ID", f"m{n}_{m}"), ("Parent", gene["id"])])
+            end = gene["end"] - 3 * m
+            row("CDS", gene["start"], end, gene["strand"], [("ID", f"c{n}_{m}"), ("Parent", f"m{n}_{m}")])
+    return "\n".join(lines) + "\n"
+
+
+def run_gff_case(ctx, case) -> None:
+    keys = [strip_forbidden(g["locus_tag"] or g["name"] or g["id"], GENE_FORBIDDEN | {"_"}) for g in case["genes"]]
+    ctx.case(("gff", case["genes"]), nontrivial=len(set(keys)) < len(keys), sample=case)
+    ctx.count("mode:gff")
+    dna = ("ATGGCAGCAGCAGCAGCAGCAGCAGCATAA" * 6)[:GENE_RECORD_LEN]
+    fasta = os.path.join(workdir(), "genes.fasta")
+    gff = os.path.join(workdir(), "genes.gff")
+    with open(fasta, "w", encoding="utf-8") as handle:
+        handle.write(f">rec1 generated\n{dna}\n")
+    with open(gff, "w", encoding="utf-8") as handle:
+        handle.write(_gff_text(case))
+    try:
+        records = rp.parse_input_sequence(fasta, "bacteria", -1, gff_file=gff)
+    except AntismashInputError:
+        ctx.count("gene:gff-rejected")
+        return
+    except Exception as err:  # pylint: disable=broad-except
+        ctx.violate("gene-add-crash", {"exception": type(err).__name__, "message": str(err)[:120],
+                                       "checksum_name_taken": False, "path": "gff"}, case)
+        return
+    ctx.count("gene:gff-accepted")
+    check_record_genes(ctx, records[0], case, "after-gff")
+    if len(records[0].get_cds_features()) > 1:
+        ctx.count("gene:gff-accepted-multi")
+    try:
+        out = rp.pre_process_sequences(records, options_for(ctx, True, 1), STUB)
+    except AntismashInputError:
+        ctx.count("rejected:AntismashInputError")
+        return
+    check_record_genes(ctx, out[0], case, "after-pre-process")
+
+
+# --------------------------------------------------------------------------
 # entry points
 # --------------------------------------------------------------------------
 
@@ -900,20 +985,33 @@ def run(ctx):
         for _ in ctx.cases(ctx.quota(1500, 400000)):
             case = gen_gene_case(rng)
             ctx.guard("harness-or-crash", case, run_gene_case, ctx, case)
-        random_lists(ctx, ctx.quota(2500, 600000), pool_every=40 if ctx.tier == "quick" else 150)
+        rng = ctx.rng("gff")
+        for _ in ctx.cases(ctx.quota(300, 60000)):
+            case = gen_gff_case(rng)
+            ctx.guard("harness-or-crash", case, run_gff_case, ctx, case)
+        random_lists(ctx, ctx.quota(1500, 400000), pool_every=40 if ctx.tier == "quick" else 150)
         ctx.extra["forbidden_record_chars_swept"] = len(RECORD_FORBIDDEN)
         ctx.extra["forbidden_gene_chars_swept"] = len(GENE_FORBIDDEN)
         ctx.extra["dictionary"] = list(DICTIONARY)
     finally:
-        logging.disable(logging.NOTSET)
+        cleanup()
 
 
 def replay(ctx, case):
     install(ctx)
+    try:
+        _replay(ctx, case)
+    finally:
+        cleanup()
+
+
+def _replay(ctx, case):
     if isinstance(case, dict) and case.get("kind") == "ids":
         run_id_case(ctx, case)
     elif isinstance(case, dict) and case.get("kind") == "genes":
         run_gene_case(ctx, case)
+    elif isinstance(case, dict) and case.get("kind") == "gff":
+        run_gff_case(ctx, case)
     elif isinstance(case, dict) and case.get("kind") == "unique":
         try:
             name, counter = rp.generate_unique_id(case["prefix"], set(case["existing"]), case["start"], case["max_length"])
